@@ -14,14 +14,7 @@ RUN_CAP_S = 120
 
 
 def assignables(spec):
-    out = []
-    for it in spec:
-        if it["k"] == "value":
-            out.append((it["name"], "node", it["vk"], it.get("shape", [])))
-        elif it["k"] == "var":
-            out.append((it["name"], "var", it["vk"], it.get("shape", [])))
-            out.append((f"{it['name']}_value", "node", it["vk"], it.get("shape", [])))
-    return out
+    return M.assignable_items(spec)
 
 
 def all_names(spec):
@@ -127,23 +120,15 @@ def shrink_candidates(plan):
         yield p
     # drop trailing spec items nobody references
     spec = plan["spec"]
-    used = set()
-    for it in spec:
-        for r in list(it.get("inputs", [])) + list(it.get("kw", {}).values()) + ([it["input"]] if "input" in it else []) + ([it["at"]] if "at" in it else []) + (list(it["dist"]["args"].values()) if it.get("dist") else []):
-            if "i" in r:
-                used.add(r["i"])
     for i in range(len(spec) - 1, -1, -1):
-        if i in used:
-            continue
-        names = {spec[i]["name"], spec[i].get("wrap"), f"{spec[i]['name']}_value", f"{spec[i]['name']}_var_value", f"{spec[i]['name']}_log_prob"}
+        names = M.item_names(spec[i])
         if any((op[0] in ("assign", "arm") and op[1] in names) for op in ops):
             continue
+        new = M.drop_item(spec, i)
+        if new is None:
+            continue
         p = copy.deepcopy(plan)
-        del p["spec"][i]
-        for it in p["spec"]:
-            for r in list(it.get("inputs", [])) + list(it.get("kw", {}).values()) + ([it["input"]] if "input" in it else []) + ([it["at"]] if "at" in it else []) + (list(it["dist"]["args"].values()) if it.get("dist") else []):
-                if "i" in r and r["i"] > i:
-                    r["i"] -= 1
+        p["spec"] = new
         for op in p["ops"]:
             if op[0] == "update_t":
                 op[1] = [t for t in op[1] if t not in names] or ["_model_log_prob"]
